@@ -9,9 +9,12 @@
   Directions are `Int` -1 / 0 / +1 as in `S2.Pred`.
 
   The code that exists (this Go port, not the C++ original):
-    * `NewEdgeCrosser` computes BOTH tangents eagerly from `norm := a.PointCross(b)`, which is
-      NOT normalised (|norm| = 2 sin(angle AB), or an arbitrary unit orthogonal vector when
-      a == ±b).  There is no `haveTangents` flag.  The field `aXb` is stored and never read:
+    * `NewEdgeCrosser` computes BOTH tangents eagerly.  Before the repair of finding D48 it used
+      `norm := a.PointCross(b)`, which is NOT normalised (|norm| = 2 sin(angle AB), or an arbitrary
+      unit orthogonal vector when the float `(a+b)×(b-a)` is exactly zero — also for nearly antipodal
+      a, b with a×b ≠ 0, where the tangents then point anywhere).  The repaired code normalises
+      `(a+b)×(b-a)` and leaves both tangents zero when its squared norm is below `0x1p-80`.
+      There is no `haveTangents` flag.  The field `aXb` is stored and never read:
       `ChainCrossingSign` calls `triageSign(e.a, e.b, d)`, which recomputes `a.Cross(b).Dot(d)`.
     * `maxError := (1.5 + 1/math.Sqrt(3)) * dblEpsilon` is evaluated at RUN TIME in float64
       (math.Sqrt is a function call, so this is not a Go constant expression).
@@ -58,10 +61,19 @@ def dblEpsilon : F64 := qDblEpsilon.toF64
 def maxError : F64 :=
   ((⟨0x3FF8000000000000⟩ : F64) + F64.one / F64.sqrt F64.three) * dblEpsilon
 
-/-- the two tangents computed by `NewEdgeCrosser` : (aTangent, bTangent) -/
+/-- `minTangentNorm2 = 0x1p-80` -/
+def minTangentNorm2 : F64 := ⟨0x3AF0000000000000⟩
+
+/-- the two tangents computed by `NewEdgeCrosser` : (aTangent, bTangent).
+    Repaired code (finding D48): the normal `(a+b) × (b-a)` is normalised, and when its float squared
+    norm is below `minTangentNorm2` both tangents stay the Go zero value (the test of `tangentReject`
+    can then not succeed). -/
 def tangents (a b : V3) : V3 × V3 :=
-  let norm := pointCross a b
-  (a.cross norm, norm.cross b)
+  let norm := (a.add b).cross (b.sub a)
+  if F64.ge norm.norm2 minTangentNorm2 then
+    let norm := norm.normalize
+    (a.cross norm, norm.cross b)
+  else (zero3, zero3)
 
 /-- the outward-tangent early rejection of `crossingSign` -/
 def tangentReject (aT bT c d : V3) : Bool :=
